@@ -29,7 +29,8 @@ P2Struct == {"remove.creator", "remove.main", "remove.fd", "remove.ifsc", "remov
              "recv.exps_vdm_singular"}   \* exponents relabelled {0, 21845, 43690}: singular for the slices 0 and 2 (constants 2^1, 2^4)
 P1Fields == {"hdr.volume", "hdr.file_count", "hdr.list_offset", "hdr.list_bytes", "hdr.data_offset", "hdr.data_bytes", "hdr.version",
              "ent.entry_bytes", "ent.status", "ent.file_bytes"}
-P1Struct == {"ent.hash", "ent.hash16k", "vol.data_short", "vol.data_long", "vol.number_swapped", "set.256_entries", "set.255_entries", "set.257_entries", "set.300_entries"}
+P1Struct == {"ent.hash", "ent.hash16k", "vol.data_short", "vol.data_long", "vol.number_swapped", "set.256_entries", "set.255_entries", "set.257_entries", "set.300_entries",
+             "ent.name_lone_surrogate", "ent.name_lone_low_surrogate"}   \* a name that is not well-formed UTF-16
 Where == {"index", "volume", "all"}
 
 \* value classes that make sense for a field (others are skipped)
